@@ -176,14 +176,20 @@ def run(ctx):
                                'kwargs': Term.of(Atom('dict', (lift('t_start'), sym('TS')), (lift('source_name'), sym('SN'))))},
                    no_inline=('frame.Frame._update_noise_frame_stats', 'frame.Frame.get_params'), expand=False)
     dv = selfattr(r, 'data')
-    da = dv.single_atom() if dv is not None else None
-    FRESH = {'copy', 'deepcopy', 'zeros', 'empty', 'full', 'ones'}
-    fresh = da is not None and da.kind == 'call' and da.args[0] in FRESH
-    if da is not None and da.kind == 'call' and da.args[0] == 'array':
-        # np.array copies by default; asarray/ascontiguousarray (normalised to `array`) and copy=False may return the input itself
-        src = [e for e in I.events if e.kind == 'store' and e.data.get('target') == 'attr' and e.data.get('name') == 'data']
-        txt = ast.unparse(src[-1].node.value) if src and hasattr(src[-1].node, 'value') else ''
-        fresh = ('np.array(' in txt or 'xp.array(' in txt) and 'copy=False' not in txt
+    # (terms do not distinguish a copy from its source -- copy(x) has the value of x -- so freshness is read off the
+    #  expression that is stored: a call of an allocating function applied to the caller's array)
+    FRESH = {'copy', 'deepcopy'}
+    src = [e for e in I.events if e.kind == 'store' and e.data.get('target') == 'attr' and e.data.get('name') == 'data'
+           and e.data['base'].key == sym('self').key]
+    fresh = bool(src)
+    for e in src:
+        v = getattr(e.node, 'value', None)
+        ok1 = isinstance(v, ast.Call) and (
+            (isinstance(v.func, ast.Attribute) and v.func.attr in FRESH) or (isinstance(v.func, ast.Name) and v.func.id in FRESH))
+        # np.array copies by default; asarray / ascontiguousarray / copy=False may return the input itself
+        ok2 = isinstance(v, ast.Call) and isinstance(v.func, ast.Attribute) and v.func.attr == 'array' and \
+            not any(k.arg == 'copy' and isinstance(k.value, ast.Constant) and k.value.value is False for k in v.keywords)
+        fresh = fresh and (ok1 or ok2)
     ctx.ob('PROPAGATE', 'the data buffer of a frame built from data is always a fresh allocation (np.copy / np.array), never a '
            'possible view of the caller\'s array (asarray, ascontiguousarray, reshape, the array itself)', init, fresh,
            {'stored': pretty(dv)[:120] if dv is not None else None}, node=init.node, construct='self.data [freshness]')
